@@ -294,6 +294,9 @@ class SArr:
             raise PathAbort('len() of an axis with symbolic extent')
         return n
 
+    def __bool__(self):
+        raise PathAbort('truth value of a symbolic array')
+
     def at(self, idx):
         idx = tuple(ilen(i) for i in idx)
         assert len(idx) == len(self.shape), (idx, self.shape)
@@ -716,6 +719,9 @@ class SDict:
     def has(self, k):
         return z3.Select(self.dom, to_z3(k))
 
+    def __bool__(self):
+        raise PathAbort('truth value of a symbolic map (emptiness is not modelled)')
+
     def __contains__(self, k):
         return ctx().branch(self.has(k))
 
@@ -738,6 +744,13 @@ class SDict:
 
     def get(self, k, default=None):
         raise PathAbort('SDict.get on a generic map; use a function model')
+
+    def pop(self, k, *default):
+        if default:
+            raise PathAbort('SDict.pop with a default on a generic map')
+        v = self.__getitem__(k)
+        self.__delitem__(k)
+        return v
 
     def items(self):
         return GenItems(self)
@@ -767,6 +780,9 @@ class GenItems:
 
     def __iter__(self):
         raise PathAbort('loop over a symbolic map must be verified through its extracted body')
+
+    def __bool__(self):
+        raise PathAbort('truth value of a view of a symbolic map')
 
     def __str__(self):
         return '<keys>'
